@@ -760,6 +760,9 @@ func init() {
 		return nil
 	}
 	I["runtime.KeepAlive"] = func(fr *frame, args []value) value { return nil }
+	// the page size is a platform constant (4 KiB on the platforms the native replay runs on)
+	I["os.Getpagesize"] = func(fr *frame, args []value) value { return 4096 }
+	I["syscall.Getpagesize"] = func(fr *frame, args []value) value { return 4096 }
 	I["os.Exit"] = func(fr *frame, args []value) value {
 		fr.i.p.events = append(fr.i.p.events, fmt.Sprintf("os.Exit(%d)", fr.conc(args[0])))
 		panic(exitPanic(fr.conc(args[0])))
